@@ -59,7 +59,8 @@ theorem fpOfParsed_netloc (E : Env) (s hp : Bool) (p : Parsed) (nl : Str) :
 /-! ## letter case: every string -/
 
 /-- **the letter case of the whole URL is ignored on strings**: two strings with the same
-`str.lower` have the same fingerprint (tuple and string), whatever they are -/
+`str.lower` (the model's: ASCII folding) have the same fingerprint (tuple and string), whatever they
+are — every ASCII case flip of every component; Unicode case pairs: oracle only -/
 theorem fp_case_string (puny : Str → Str) (platform : Str → Str) (trie : SNode Str) (s : Bool)
     (u v : Str) (h : lower u = lower v) :
     fingerprintUrlStringSplit puny platform trie s u = fingerprintUrlStringSplit puny platform trie s v ∧
